@@ -201,6 +201,21 @@ twin('C01', 'pyiga/codegen/cython.py', 'pyiga.codegen.cython.AsmGenerator.gen_pd
 twin('C05', 'pyiga/hierarchical.py', 'pyiga.hierarchical.HSplineFunc.grid_jacobian', r"return sum\(f\.grid_jacobian\(gridaxes\)\n\s*for f in self\.hs\.coeffs_to_levelwise_funcs\(self\.coeffs, truncate=self\.truncate\)\)",
      'funcs = self.hs.coeffs_to_levelwise_funcs(self.coeffs, truncate=self.truncate)\n        return sum(f.grid_jacobian(gridaxes) for f in funcs)', 'level-wise functions through a local')
 
+# ---- rules added after the first wave of independently seeded changes (seeded/S01..S08): variants of those changes, and
+#      behaviour-preserving rewrites of the same constructs
+brk('C03', 'R03.7', 'pyiga/_hdiscr.py', 'pyiga._hdiscr.HDiscretization.assemble_matrix', r"(\n(\s*)for lv in range\(max\(0, k - hs\.disparity\), k\):)", r"\1\n\2    if not neighbors[k][lv]:\n\2        continue", 'coarser level skipped inside the accumulation loop')
+twin('C03', 'pyiga/_hdiscr.py', 'pyiga._hdiscr.HDiscretization.assemble_matrix', r"for lv in range\(max\(0, k - hs\.disparity\), k\):", 'for lv in reversed(range(max(0, k - hs.disparity), k)):', 'levels accumulated in the other order (set union commutes)')
+brk('C04', 'R04.6', 'pyiga/hierarchical.py', 'pyiga.hierarchical.HSpace._mark_recursive', r"self\._mark_recursive\(l-self\.disparity, marked, truncate=truncate\)", 'self._mark_recursive(l-1, marked, truncate=truncate)', 'recursion continues on a level other than the one whose marks were extended')
+twin('C04', 'pyiga/hierarchical.py', 'pyiga.hierarchical.HSpace._mark_recursive', r"self\._mark_recursive\(l-self\.disparity, marked, truncate=truncate\)", 'self._mark_recursive(-self.disparity + l, marked, truncate=truncate)', 'commuted level expression')
+brk('C05', 'R05.4', 'pyiga/hierarchical.py', 'pyiga.hierarchical.HSpace.represent_fine', r"Pj\[act_indices\[k\+1\], :\] = 0", 'Pj[self.active_indices()[k+1], :] = 0', 'truncation zeroes the rows of a different index list than the column blocks use')
+twin('C05', 'pyiga/hierarchical.py', 'pyiga.hierarchical.HSpace.represent_fine', r"Pj\[act_indices\[k\+1\], :\] = 0", 'Pj[act_indices[1+k], :] = 0', 'commuted subscript')
+brk('C06', 'R06.7', 'pyiga/vform.py', 'pyiga.vform.VForm.basisderiv_as_var', r"inner\(self\.JacInv\[self\.spacedims, k\], spacegrad\)", 'inner(self.JacInv[k, self.spacedims], spacegrad)', 'row and column roles of JacInv swapped at one sibling site')
+brk('C08', 'R08.5', 'pyiga/assemble.py', 'pyiga.assemble.assemble_entries_vec', r"(\n(\s*)if layout == 'blocked':\n\s*axes = \(dim,\) \+ tuple\(range\(dim\)\)   # bring last axis to the front)", r"\n\2if format == 'mlb':\n\2    return X\1", 'an exit added before the layout permutation')
+brk('C10', 'R10.1', 'pyiga/assemble.py', 'pyiga.assemble.RestrictedLinearSystem.__init__', r"values = np\.asarray\(values\)\[np\.argsort\(indices, kind='stable'\)\]", 'values = np.asarray(values)[np.unique(indices, return_inverse=True)[1]]', 'rank of the indices used where the sorting permutation is needed')
+brk('C11', 'R11.4', 'pyiga/solvers.py', 'pyiga.solvers.iterative_solve', r"x = x0\n(\s*)res0 = f - A @ x", r"x = x0\n\1res0 = f", 'reference residual ignores the starting vector')
+twin('C11', 'pyiga/solvers.py', 'pyiga.solvers.iterative_solve', r"x = x0\n(\s*)res0 = f - A @ x", r"x = x0\n\1res0 = f - A.dot(x0)", 'reference residual through x0 and dot()')
+brk('C12', 'R12.8', 'pyiga/solvers.py', 'pyiga.solvers._adaptive_step_method.<locals>._method', r"xnew, xhat, Fxnew = stepper\(M, F, J, x, tau, data, Fx=Fx\)", 'xnew, xhat, Fx = stepper(M, F, J, x, tau, data, Fx=Fx)', 'loop-carried Fx overwritten by a trial step that may be rejected')
+
 
 def recipes_for(prop):
     return [r for r in R if r['prop'] == prop]
